@@ -261,6 +261,9 @@ macro_rules! fmts { ($name:ident, $A:ty) => {
         assert!(format!("{:+}", a) == format!("{:+}", v)); assert!(format!("{:010}", a) == format!("{:010}", v));
         assert!(format!("{:>12x}", a) == format!("{:>12x}", v)); assert!(format!("{:*<9b}", a) == format!("{:*<9b}", v));
         assert!(format!("{:#012o}", a) == format!("{:#012o}", v)); assert!(format!("{:^7X}", a) == format!("{:^7X}", v));
+        assert!(format!("{:#}", a) == format!("{:#}", v)); assert!(format!("{:+#012}", a) == format!("{:+#012}", v));
+        assert!(format!("{:<6}", a) == format!("{:<6}", v)); assert!(format!("{:+#b}", a) == format!("{:+#b}", v));
+        assert!(format!("{:03x}", a) == format!("{:03x}", v)); assert!(format!("{:-^20o}", a) == format!("{:-^20o}", v));
     }
 }}
 fmts!(fmt__f82, F82);
